@@ -578,8 +578,8 @@ def decode_cases(rng, tier, schema, seeds):
     """All fuzz inputs: list of {"op":"decode","t":..,"hex":..,"label":..}."""
     cases = []
     dist = {}
-    cap = 260 if tier == "quick" else 4000
-    n_mut, n_trunc, n_rand = (24, 24, 30) if tier == "quick" else (300, 200, 600)
+    cap = 260 if tier == "quick" else 1500
+    n_mut, n_trunc, n_rand = (24, 24, 30) if tier == "quick" else (200, 150, 400)
 
     def add(t, lab, b):
         cases.append({"op": "decode", "t": t, "hex": b.hex(), "label": lab})
@@ -640,7 +640,7 @@ def run(rep):
     # 3. harness -------------------------------------------------------------------------------
     build_bins()
     flags = source_flags()
-    meta = harness([{"op": "schema"}, {"op": "seeds", "seed": str(rep.seed), "count": 2 if tier == "quick" else 4}], "dev", shards=1)
+    meta = harness([{"op": "schema"}, {"op": "seeds", "seed": str(rep.seed), "count": 2 if tier == "quick" else 3}], "dev", shards=1)
     schema, seeds = meta[0], meta[1]["seeds"]
 
     marks['build+schema'] = round(time.time() - t0, 1)
